@@ -5,6 +5,7 @@ package main
 // prediction, and concurrent stress runs checked by oracles on the driver log.
 
 import (
+	"errors"
 	"bufio"
 	"context"
 	"database/sql"
@@ -495,6 +496,9 @@ func cmdCache(args []string) int {
 	}
 	for i := 0; i < *stress; i++ {
 		cacheStress(r.fork(), addViol)
+		for k := 0; k < 3; k++ {
+			cacheRerun(r.fork(), addViol)
+		}
 		st.Stress++
 	}
 	cw.Flush()
@@ -541,6 +545,7 @@ func cacheStress(r *rng, add func(violation)) {
 	for i := range dbs {
 		sqldb, f := openFake()
 		f.gate = gate
+		f.honourCtx = true
 		dbs[i] = sqlair.NewDB(sqldb)
 		sqldbs[i] = sqldb
 		fakes[i] = f
@@ -557,9 +562,31 @@ func cacheStress(r *rng, add func(violation)) {
 				s, d, q := gr.intn(nS), gr.intn(nD), gr.intn(3)
 				sl := make(IntSlice, q+1)
 				var ps []Person
-				err := dbs[d].Query(context.Background(), stmts[s], sl).GetAll(&ps)
+				// every fifth call runs under its own context, which is cancelled (or expires) a moment later
+				ctx := context.Background()
+				cancel := func() {}
+				switch gr.intn(10) {
+				case 0:
+					ctx, cancel = context.WithCancel(context.Background())
+					time.AfterFunc(time.Duration(30+gr.intn(300))*time.Microsecond, cancel)
+				case 1:
+					ctx, cancel = context.WithTimeout(context.Background(), time.Duration(30+gr.intn(300))*time.Microsecond)
+				}
+				err := dbs[d].Query(ctx, stmts[s], sl).GetAll(&ps)
+				own := ctx.Err()
+				cancel()
 				if err != nil {
-					viol("C10", "operation-failed-in-fault-free-history", err.Error())
+					isCtx := errors.Is(err, context.Canceled) || errors.Is(err, context.DeadlineExceeded) ||
+						strings.Contains(err.Error(), "context canceled") || strings.Contains(err.Error(), "deadline exceeded")
+					switch {
+					case isCtx && own == nil:
+						// the call failed with a context's error although the context it was given is live
+						viol("C20", "failed-with-the-error-of-another-calls-context", err.Error())
+					case isCtx:
+						// its own context ended: allowed to fail
+					default:
+						viol("C10", "operation-failed-in-fault-free-history", err.Error())
+					}
 				}
 				if gr.chance(1, 10) {
 					runtime.GC()
@@ -585,6 +612,8 @@ func cacheStress(r *rng, add func(violation)) {
 			switch ev.Kind {
 			case "prepare":
 				prepared[ev.Stmt] = ev.SQL
+			case "prepare-aborted":
+				delete(prepared, ev.Stmt) // the driver returned an error: there is no statement
 			case "query", "exec":
 				if prepared[ev.Stmt] != ev.SQL {
 					viol("C09", "executed-through-statement-of-other-sql", fmt.Sprintf("db %d stmt %d", di, ev.Stmt))
@@ -618,6 +647,72 @@ func cacheStress(r *rng, add func(violation)) {
 	for _, f := range fakes {
 		dropFakeDB(f.name)
 	}
+}
+
+// cacheRerun: a Query object that the caller keeps is run again after the statement it used was
+// evicted by a differently shaped call and the garbage collector has run (C10: "... or a Query or
+// Iterator obtained from them"); also with the Statement variable dropped in between.
+func cacheRerun(r *rng, add func(violation)) {
+	desc := fmt.Sprintf("rerun seed-state %d", r.s)
+	viol := func(prop, name, detail string) { add(violation{prop, name, hx(desc), detail}) }
+	cacheStmtCounter++
+	stmt := sqlair.MustPrepare(fmt.Sprintf("SELECT &Person.* FROM person WHERE id IN ($IntSlice[:]) -- rerun %d", cacheStmtCounter), Person{}, IntSlice{})
+	sqldb, f := openFake()
+	db := sqlair.NewDB(sqldb)
+	defer func() { sqldb.Close(); dropFakeDB(f.name) }()
+	shape := func(n int) IntSlice { return make(IntSlice, n) }
+	n1 := 1 + r.intn(3)
+	held := db.Query(context.Background(), stmt, shape(n1))
+	runHeld := func(when string) {
+		var ps []Person
+		var err error
+		if r.chance(1, 2) {
+			err = held.GetAll(&ps)
+		} else {
+			it := held.Iter()
+			for it.Next() {
+				var p Person
+				it.Get(&p)
+			}
+			err = it.Close()
+		}
+		if err != nil && !errors.Is(err, sqlair.ErrNoRows) {
+			viol("C10", "held-query-failed", when+": "+err.Error())
+		}
+	}
+	if r.chance(3, 4) {
+		runHeld("first run")
+	}
+	// other shapes evict the cached statement
+	for i := 0; i < 1+r.intn(2); i++ {
+		var ps []Person
+		db.Query(context.Background(), stmt, shape(n1+1+i)).GetAll(&ps)
+	}
+	if r.chance(1, 3) {
+		stmt = nil // the Statement variable is dropped; the Query still holds what it needs
+	}
+	settle()
+	settle()
+	runHeld("after eviction and garbage collection")
+	runHeld("once more")
+	// driver log: nothing executed on a closed statement, SQL matches the arguments
+	closed := map[int]bool{}
+	for _, ev := range f.log() {
+		switch ev.Kind {
+		case "stmtclose":
+			closed[ev.Stmt] = true
+		case "query", "exec":
+			if closed[ev.Stmt] {
+				viol("C10", "closed-driver-statement-executed", fmt.Sprintf("stmt %d", ev.Stmt))
+			}
+			if strings.Count(ev.SQL, "@sqlair_") != len(ev.Args) {
+				viol("C09", "statement-shape-differs-from-arguments", fmt.Sprintf("%q with %d args", ev.SQL, len(ev.Args)))
+			}
+		case "query-on-closed", "exec-on-closed":
+			viol("C10", "closed-driver-statement-executed", fmt.Sprintf("stmt %d", ev.Stmt))
+		}
+	}
+	_ = stmt
 }
 
 func init() { commands["cache"] = cmdCache }
